@@ -19,6 +19,7 @@ import (
 // world: the scripted listeners of one configuration.
 type world struct {
 	o1, o2, r *lib.Origin // plain origins (r = redirect target)
+	e1, e2    *lib.Origin // two plain origins on different addresses with the SAME port (wildcard rule with an unchanged host)
 	ot        *lib.Origin // TLS origin
 	a, a2     *lib.Origin // plain HTTP proxies
 	b         *lib.Origin // TLS HTTP proxy
@@ -83,12 +84,22 @@ func newWorld() *world {
 	dl, _ := net.Listen("tcp", "127.0.0.9:0")
 	w.deadAddr = dl.Addr().String()
 	dl.Close()
+	for try := 0; try < 20 && w.e2 == nil; try++ {
+		e1 := lib.MustOrigin("E1", "127.0.0.11:0", nil, echo)
+		if e2, err := lib.NewOrigin("E2", "127.0.0.12:"+e1.Port(), nil, echo); err == nil {
+			w.e1, w.e2 = e1, e2
+		} else {
+			e1.Close()
+		}
+	}
 	return w
 }
 
 func (w *world) close() {
-	for _, o := range []*lib.Origin{w.o1, w.o2, w.r, w.ot, w.a, w.a2, w.b} {
-		o.Close()
+	for _, o := range []*lib.Origin{w.o1, w.o2, w.r, w.ot, w.a, w.a2, w.b, w.e1, w.e2} {
+		if o != nil {
+			o.Close()
+		}
 	}
 	w.s.Close()
 }
@@ -99,7 +110,11 @@ func (w *world) snap() counts {
 	// activity = bytes received (connections to the scripted peers are pooled by the proxy's
 	// transport, so accepts alone would miss reuse); TLS handshakes count as accepts
 	act := func(o *lib.Origin) int64 { return o.BytesIn() + o.Accepts()<<32 }
-	return counts{"O1": act(w.o1), "O2": act(w.o2), "R": act(w.r), "OT": act(w.ot), "A": act(w.a), "A2": act(w.a2), "B": act(w.b), "S": w.s.BytesIn() + w.s.Accepts()<<32}
+	c := counts{"O1": act(w.o1), "O2": act(w.o2), "R": act(w.r), "OT": act(w.ot), "A": act(w.a), "A2": act(w.a2), "B": act(w.b), "S": w.s.BytesIn() + w.s.Accepts()<<32}
+	if w.e2 != nil {
+		c["E1"], c["E2"] = act(w.e1), act(w.e2)
+	}
+	return c
 }
 
 func (w *world) owner(addr string) string {
@@ -107,6 +122,12 @@ func (w *world) owner(addr string) string {
 		if a == addr {
 			return n
 		}
+	}
+	if w.e2 != nil && addr == w.e1.Addr {
+		return "E1"
+	}
+	if w.e2 != nil && addr == w.e2.Addr {
+		return "E2"
 	}
 	return ""
 }
@@ -210,6 +231,12 @@ func setup(run *lib.Run, r *lib.RNG, idx int) *conf {
 		dh, dp, _ := net.SplitHostPort(w.deadAddr)
 		oh, op, _ := net.SplitHostPort(w.o2.Addr)
 		c.rules = append(c.rules, rule{"dead.test", "80", dh, dp}, rule{dh, dp, oh, op})
+	}
+	// a wildcard rule with an unchanged host: whatever is dialled on port 7777 goes to the same
+	// host on the port that E1 and E2 share; it is matched by several different addresses in one
+	// process and must leave each of them its own host
+	if w.e2 != nil {
+		c.rules = append(c.rules, rule{"", "7777", "", w.e1.Port()})
 	}
 	for name, addr := range w.names {
 		h, p, _ := net.SplitHostPort(name)
@@ -388,8 +415,16 @@ func runConf(run *lib.Run, r *lib.RNG, c *conf, base int) {
 		{"127.0.0.2", w.o1.Port()}, {"127.0.0.3", w.o2.Port()}, {"localhost", w.o1.Port()}}
 	lib.Shuffle(r, targets)
 	targets = append([]target{{"dead.test", "80"}}, targets...)
+	targets = targets[:7]
+	if w.e2 != nil {
+		ws := []target{{"127.0.0.11", "7777"}, {"127.0.0.12", "7777"}, {"127.0.0.11", "7777"}}
+		if r.Bool() {
+			ws = []target{{"127.0.0.12", "7777"}, {"127.0.0.11", "7777"}, {"127.0.0.12", "7777"}}
+		}
+		targets = append(targets, ws...)
+	}
 	k := 0
-	for _, t := range targets[:7] {
+	for _, t := range targets {
 		for _, kind := range []string{"http", "connect", "https"} {
 			if kind == "https" && (!c.mitm || strings.HasPrefix(t.host, "127.") || t.host == "localhost" || t.port != "80") {
 				continue
@@ -454,6 +489,9 @@ func (c *conf) oneRoute(run *lib.Run, r *lib.RNG, idx int, t target, kind string
 	}
 	if t.host == "dead.test" && hop != "direct" {
 		return // the scripted proxies cannot complete a tunnel to a name that maps nowhere
+	}
+	if t.port == "7777" && hop != "direct" {
+		return // the wildcard rule concerns this proxy's own dial: only direct hops exercise it
 	}
 	mustFailDead := hop == "direct" && t.host == "dead.test"
 	if mustFailDead {
